@@ -116,9 +116,9 @@ func (cce *staleIfErrorPolicy) CanStaleOnError(
 		if !valid {
 			continue
 		}
-		age := freshness.Age.Value + cce.clock.Since(freshness.Age.Timestamp)
+		age := addDuration(freshness.Age.Value, max(cce.clock.Since(freshness.Age.Timestamp), 0))
 		// If stale-if-error is set, allow extra staleness
-		if age <= freshness.UsefulLife+dur {
+		if age <= addDuration(freshness.UsefulLife, dur) {
 			return true
 		}
 	}
